@@ -39,12 +39,16 @@ where
 
     storage::delete_saved_env_state(target).await?;
 
+    // The state of the inputs is taken before the build starts: an input modified while the
+    // build is running must be seen as a change by the next comparison
+    let input_state = TargetEnvState::current_input(target_input).await;
+
     let build_report = future.await?;
 
     match build_report {
         BuildTerminationReport::Cancelled => Ok(IncrementalRunResult::Cancelled),
         BuildTerminationReport::Completed => {
-            match TargetEnvState::current(target_input, target_output).await {
+            match TargetEnvState::with_current_output(input_state, target_output).await {
                 Ok(Some(env_state)) => {
                     if let Err(e) = storage::save_env_state(target, env_state).await {
                         log::warn!(
@@ -88,20 +92,30 @@ pub struct TargetEnvState {
 }
 
 impl TargetEnvState {
-    pub async fn current(
-        target_input: &Resources,
-        target_output: Option<&Resources>,
-    ) -> Result<Option<Self>> {
+    /// State of the inputs alone (`None` for a target without input)
+    pub async fn current_input(target_input: &Resources) -> Result<Option<ResourcesState>> {
         if target_input.is_empty() {
             Ok(None)
         } else {
-            let input = ResourcesState::current(target_input).await?;
-            let output = match target_output {
-                Some(target_output) => Some(ResourcesState::current(target_output).await?),
-                None => None,
-            };
+            Ok(Some(ResourcesState::current(target_input).await?))
+        }
+    }
 
-            Ok(Some(TargetEnvState { input, output }))
+    /// Completes a state of the inputs taken earlier with the current state of the outputs
+    pub async fn with_current_output(
+        input_state: Result<Option<ResourcesState>>,
+        target_output: Option<&Resources>,
+    ) -> Result<Option<Self>> {
+        match input_state? {
+            None => Ok(None),
+            Some(input) => {
+                let output = match target_output {
+                    Some(target_output) => Some(ResourcesState::current(target_output).await?),
+                    None => None,
+                };
+
+                Ok(Some(TargetEnvState { input, output }))
+            }
         }
     }
 
